@@ -112,8 +112,8 @@ package commitment
 //@   props C11
 //@   requires h != nil && child != nil
 //@   modifies nothing
-//@   ensures result ==> h.Round == mod(child.Round + 1, 18446744073709551616)
-//@   ensures h.Round != mod(child.Round + 1, 18446744073709551616) ==> !result
+//@   ensures result ==> (child.Round < 18446744073709551615 && h.Round == child.Round + 1) || (child.Round == 18446744073709551615 && h.Round == 0)
+//@   ensures !((child.Round < 18446744073709551615 && h.Round == child.Round + 1) || (child.Round == 18446744073709551615 && h.Round == 0)) ==> !result
 //@   note a commitment's header extends a block only as its immediate successor round (uint64 arithmetic)
 
 //@ func VerifyExecutorCommitment
